@@ -45,51 +45,55 @@ theorem mem_insert_value (m : Map) (k : Key) (v : Nat) (h : ∀ p ∈ m, p.2 = v
     · rfl
     · exact h p hp
 
+/-- `HashTable.new` hands out a table exactly when it reports `CC_OK` -/
+theorem table_new_none (c : HCfg) (cap : Nat) (tr : Triple) (m : Mem)
+    (h : (HashTable.new c cap tr m).2.1 = none) : (HashTable.new c cap tr m).1 ≠ .ok := by
+  unfold HashTable.new at h ⊢
+  simp only at h ⊢
+  cases h1 : (m.allocT tr).1 with
+  | false => simp
+  | true =>
+    cases h2 : ((m.allocT tr).2.allocT tr).1 with
+    | false => simp
+    | true => simp [h1, h2] at h
+
 /-- `cc_hashset_new_conf`: header + table, or nothing at all -/
-theorem new_spec (c : HCfg) (cap : Nat) (m : Mem) :
-    ((HashSet.new c cap m).1 = .ok ∨ (HashSet.new c cap m).1 = .errAlloc) ∧
-    ((HashSet.new c cap m).1 ≠ .ok → (HashSet.new c cap m).2.1 = none ∧ (HashSet.new c cap m).2.2.live = m.live) ∧
-    (∀ s, (HashSet.new c cap m).2.1 = some s → (HashSet.new c cap m).1 = .ok ∧ s.Inv c ∧ s.abs = [] ∧
-        (HashSet.new c cap m).2.2.live = m.live + 3) ∧
-    (HashSet.new c cap m).2.2.fault = m.fault := by
+theorem new_spec (c : HCfg) (cap : Nat) (tr : Triple) (m : Mem) :
+    ((HashSet.new c cap tr m).1 = .ok ∨ (HashSet.new c cap tr m).1 = .errAlloc) ∧
+    ((HashSet.new c cap tr m).1 ≠ .ok → (HashSet.new c cap tr m).2.1 = none ∧
+        liveOf (HashSet.new c cap tr m).2.2 tr = liveOf m tr) ∧
+    (∀ s, (HashSet.new c cap tr m).2.1 = some s → (HashSet.new c cap tr m).1 = .ok ∧ s.Inv c ∧ s.abs = [] ∧
+        liveOf (HashSet.new c cap tr m).2.2 tr = liveOf m tr + 3 ∧ s.triple = tr) ∧
+    (HashSet.new c cap tr m).2.2.fault = m.fault := by
   unfold HashSet.new
   simp only
-  cases h1 : m.alloc.1 with
+  cases h1 : (m.allocT tr).1 with
   | false =>
-    have e1 := Mem.alloc_fst_false m h1
+    have e1 := allocT_false m tr h1
     simp only [Bool.not_false, if_true]
-    exact ⟨by simp, fun _ => ⟨trivial, e1.1⟩, by simp, e1.2.1⟩
+    exact ⟨by simp, fun _ => ⟨trivial, e1.1⟩, by simp, e1.2⟩
   | true =>
-    have e1 := Mem.alloc_fst_true m h1
-    obtain ⟨n1, n2, n3, n4, n5⟩ := HashTable.new_spec c cap m.alloc.2
+    have e1 := allocT_true m tr h1
+    obtain ⟨n1, n2, n3, n4, n5⟩ := HashTable.new_spec c cap tr (m.allocT tr).2
     simp only [Bool.not_true, Bool.false_eq_true, if_false]
-    cases ht : (HashTable.new c cap m.alloc.2).2.1 with
+    cases ht : (HashTable.new c cap tr (m.allocT tr).2).2.1 with
     | none =>
-      have hne : (HashTable.new c cap m.alloc.2).1 ≠ .ok := by
-        intro hok
-        rcases n1 with h | h
-        · -- ok but no table: impossible, `new` returns a table exactly when it succeeds
-          unfold HashTable.new at ht hok
-          simp only at ht hok
-          split at ht
-          · simp_all
-          · split at ht <;> simp_all
-        · rw [h] at hok; cases hok
+      have hne := table_new_none c cap tr (m.allocT tr).2 ht
       obtain ⟨_, q2⟩ := n2 hne
-      have hfr := free_spec (HashTable.new c cap m.alloc.2).2.2 (by omega)
+      have hfr := freeT_spec (HashTable.new c cap tr (m.allocT tr).2).2.2 tr (by omega)
       simp only
-      refine ⟨?_, fun _ => ⟨trivial, by rw [hfr.1]; omega⟩, by simp, by rw [hfr.2.1, n4, e1.2.1]⟩
+      refine ⟨?_, fun _ => ⟨trivial, by rw [hfr.1]; omega⟩, by simp, by rw [hfr.2.1, n4, e1.2]⟩
       rcases n1 with h | h
       · exact absurd h hne
       · right; exact h
     | some t =>
-      obtain ⟨q1, q2, q3, q4, q5, q6⟩ := n3 t ht
+      obtain ⟨q1, q2, q3, q4, q5, q6, q7⟩ := n3 t ht
       simp only
-      refine ⟨by simp, by simp, ?_, by rw [n4, e1.2.1]⟩
+      refine ⟨by simp, by simp, ?_, by rw [n4, e1.2]⟩
       intro s hs
       simp only [Option.some.injEq] at hs
       subst hs
-      refine ⟨trivial, ⟨q2, ?_⟩, ?_, by omega⟩
+      refine ⟨trivial, ⟨q2, ?_, q7⟩, ?_, by omega, rfl⟩
       · apply values_of_abs; rw [q3]; simp
       · unfold abs; simp only; rw [q3]; rfl
 
@@ -98,16 +102,18 @@ theorem add_spec (c : HCfg) (s : HashSet) (e : Key) (m : Mem) (h : s.Inv c) :
     (s.add c e m).2.1.Inv c ∧
     ((s.add c e m).1 = .ok → (s.add c e m).2.1.abs.Perm (Set.insert s.abs e) ∧
         (s.add c e m).2.1.size ≤ (s.add c e m).2.1.table.threshold ∧
-        (s.add c e m).2.2.live + s.size = m.live + (s.add c e m).2.1.size) ∧
+        liveOf (s.add c e m).2.2 s.triple + s.size = liveOf m s.triple + (s.add c e m).2.1.size) ∧
     ((s.add c e m).1 ≠ .ok → ((s.add c e m).1 = .errAlloc ∨ (s.add c e m).1 = .errMaxCapacity) ∧
-        (s.add c e m).2.1.abs.Perm s.abs ∧ (s.add c e m).2.1.size = s.size ∧ (s.add c e m).2.2.live = m.live) ∧
-    (s.add c e m).2.2.fault = m.fault := by
-  obtain ⟨hi, hv⟩ := h
-  obtain ⟨a1, a2, a3, a4, a5, a6⟩ := HashTable.add_spec c s.table e dummy m hi
+        (s.add c e m).2.1.abs.Perm s.abs ∧ (s.add c e m).2.1.size = s.size ∧
+        liveOf (s.add c e m).2.2 s.triple = liveOf m s.triple) ∧
+    (s.add c e m).2.2.fault = m.fault ∧ (s.add c e m).2.1.triple = s.triple := by
+  obtain ⟨hi, hv, htr⟩ := h
+  obtain ⟨a1, a2, a3, a4, a5, a6, a7⟩ := HashTable.add_spec c s.table e dummy m hi
   have hv' := abs_of_values s.table hv
+  rw [htr] at a2 a3
   unfold add size abs
   simp only
-  refine ⟨⟨a1, ?_⟩, ?_, ?_, a4⟩
+  refine ⟨⟨a1, ?_, by rw [a7, htr]⟩, ?_, ?_, a4, trivial⟩
   · apply values_of_abs
     by_cases hok : (s.table.add c e dummy m).1 = .ok
     · intro p hp
@@ -123,33 +129,38 @@ theorem add_spec (c : HCfg) (s : HashSet) (e : Key) (m : Mem) (h : s.Inv c) :
     obtain ⟨b1, b2, b3, b4⟩ := a3 hok
     exact ⟨b1, b2.map _, b3, b4⟩
 
-/-- `cc_hashset_remove` -/
-theorem remove_spec (c : HCfg) (s : HashSet) (e : Key) (m : Mem) (h : s.Inv c) (hl : 0 < m.live) :
+theorem contains_eq_isSome (m : Map) (e : Key) : (Map.keys m).contains e = (Map.lookup m e).isSome := by
+  have := Map.contains_iff m e
+  unfold Map.contains at this
+  cases hh : (Map.lookup m e).isSome with
+  | true => simpa using this.mp hh
+  | false =>
+    have : ¬ e ∈ Map.keys m := fun hm => by rw [this.mpr hm] at hh; cases hh
+    simpa using this
+
+/-- `cc_hashset_remove`.  `hl`: a present element's entry block is owned through the set's triple. -/
+theorem remove_spec (c : HCfg) (s : HashSet) (e : Key) (m : Mem) (h : s.Inv c)
+    (hl : s.abs.contains e = true → 0 < liveOf m s.triple) :
     (s.remove c e m).2.2.1.Inv c ∧
     (s.remove c e m).2.2.1.abs = Set.erase s.abs e ∧
     (s.remove c e m).1 = (if s.abs.contains e then .ok else .errKeyNotFound) ∧
     ((s.remove c e m).1 ≠ .ok → (s.remove c e m).2.2.1 = s ∧ (s.remove c e m).2.2.2 = m) ∧
-    ((s.remove c e m).1 = .ok → (s.remove c e m).2.2.2.live = m.live - 1 ∧ (s.remove c e m).2.2.1.size + 1 = s.size) ∧
-    (s.remove c e m).2.2.2.fault = m.fault := by
-  obtain ⟨hi, hv⟩ := h
-  obtain ⟨p1, p2, p3, p4, p5, p6, p7, p8, p9⟩ := HashTable.remove_spec c s.table e m hi hl
+    ((s.remove c e m).1 = .ok → liveOf (s.remove c e m).2.2.2 s.triple = liveOf m s.triple - 1 ∧
+        (s.remove c e m).2.2.1.size + 1 = s.size) ∧
+    (s.remove c e m).2.2.2.fault = m.fault ∧ (s.remove c e m).2.2.1.triple = s.triple := by
+  obtain ⟨hi, hv, htr⟩ := h
+  have hc := contains_eq_isSome s.table.abs e
+  obtain ⟨p1, p2, p3, p4, p5, p6, p7, p8, p9, p10⟩ := HashTable.remove_spec c s.table e m hi
+    (fun hs => by rw [htr]; exact hl (by unfold abs; rw [hc]; exact hs))
   have hv' := abs_of_values s.table hv
+  rw [htr] at p6
   unfold remove size abs
   simp only
-  refine ⟨⟨p1, ?_⟩, by rw [p2, keys_erase], ?_, ?_, p6, p7⟩
+  refine ⟨⟨p1, ?_, by rw [p10, htr]⟩, by rw [p2, keys_erase], ?_, ?_, p6, p7, trivial⟩
   · apply values_of_abs
     rw [p2]; intro p hp
     exact hv' p (List.mem_filter.mp hp).1
-  · rw [p4]
-    have hc : (Map.keys s.table.abs).contains e = (Map.lookup s.table.abs e).isSome := by
-      have := Map.contains_iff s.table.abs e
-      unfold Map.contains at this
-      cases hh : (Map.lookup s.table.abs e).isSome with
-      | true => simpa using this.mp hh
-      | false =>
-        have : ¬ e ∈ Map.keys s.table.abs := fun hm => by rw [this.mpr hm] at hh; cases hh
-        simpa using this
-    rw [hc]
+  · rw [p4, hc]
   · intro hne
     obtain ⟨q1, q2⟩ := p5 hne
     refine ⟨?_, q2⟩
@@ -161,35 +172,36 @@ theorem contains_refines (c : HCfg) (s : HashSet) (e : Key) (m : Mem) (h : s.Inv
   obtain ⟨g1, g2⟩ := HashTable.containsKey_refines c s.table e m h.1
   unfold contains abs
   refine ⟨?_, g2⟩
-  rw [g1]
-  cases hh : Map.contains s.table.abs e with
-  | true => have := (Map.contains_iff _ _).mp hh; simpa using this
-  | false =>
-    have : ¬ e ∈ Map.keys s.table.abs := fun hm => by rw [(Map.contains_iff _ _).mpr hm] at hh; cases hh
-    simpa using this
+  rw [g1, contains_eq_isSome]; rfl
 
-theorem removeAll_eq (s : HashSet) (m : Mem) : s.removeAll m = (⟨(s.table.removeAll m).1⟩, (s.table.removeAll m).2) := by
+theorem removeAll_eq (s : HashSet) (m : Mem) :
+    s.removeAll m = ({ s with table := (s.table.removeAll m).1 }, (s.table.removeAll m).2) := by
   simp [removeAll]
 
 /-- `cc_hashset_remove_all` -/
-theorem removeAll_spec (c : HCfg) (s : HashSet) (m : Mem) (h : s.Inv c) (hl : s.size ≤ m.live) :
+theorem removeAll_spec (c : HCfg) (s : HashSet) (m : Mem) (h : s.Inv c) (hl : s.size ≤ liveOf m s.triple) :
     (s.removeAll m).1.Inv c ∧ (s.removeAll m).1.abs = [] ∧ (s.removeAll m).1.size = 0 ∧
-    (s.removeAll m).2.live = m.live - s.size ∧ (s.removeAll m).2.fault = m.fault := by
-  obtain ⟨r1, r2, r3, r4, r5, r6, r7⟩ := HashTable.removeAll_spec c s.table m h.1 hl
+    liveOf (s.removeAll m).2 s.triple = liveOf m s.triple - s.size ∧ (s.removeAll m).2.fault = m.fault ∧
+    (s.removeAll m).1.triple = s.triple := by
+  obtain ⟨hi, hv, htr⟩ := h
+  obtain ⟨r1, r2, r3, r4, r5, r6, r7, r8⟩ := HashTable.removeAll_spec c s.table m hi (by rw [htr]; exact hl)
+  rw [htr] at r6 r8
   rw [removeAll_eq]
-  generalize (s.table.removeAll m).1 = t' at r1 r2 r3 r4 r5
+  generalize (s.table.removeAll m).1 = t' at r1 r2 r3 r4 r5 r8
   generalize (s.table.removeAll m).2 = m' at r6 r7
-  refine ⟨⟨r1, ?_⟩, ?_, r3, r6, r7⟩
+  refine ⟨⟨r1, ?_, r8⟩, ?_, r3, r6, r7, rfl⟩
   · apply values_of_abs; rw [r2]; simp
   · unfold abs; simp only; rw [r2]; rfl
 
 /-- `cc_hashset_destroy` releases the entries, the bucket array, the table header and the set header -/
-theorem destroy_spec (c : HCfg) (s : HashSet) (m : Mem) (h : s.Inv c) (hl : s.size + 3 ≤ m.live) :
-    (s.destroy m).live = m.live - (s.size + 3) ∧ (s.destroy m).fault = m.fault := by
-  obtain ⟨d1, d2⟩ := HashTable.destroy_spec c s.table m h.1 (by unfold size at hl; omega)
-  have hfr := free_spec (s.table.destroy m) (by unfold size at hl; omega)
+theorem destroy_spec (c : HCfg) (s : HashSet) (m : Mem) (h : s.Inv c) (hl : s.size + 3 ≤ liveOf m s.triple) :
+    liveOf (s.destroy m) s.triple = liveOf m s.triple - (s.size + 3) ∧ (s.destroy m).fault = m.fault := by
+  obtain ⟨hi, hv, htr⟩ := h
+  obtain ⟨d1, d2⟩ := HashTable.destroy_spec c s.table m hi (by rw [htr]; unfold size at hl; omega)
+  rw [htr] at d1
+  have hfr := freeT_spec (s.table.destroy m) s.triple (by unfold size at hl; omega)
   unfold destroy size
-  refine ⟨by rw [hfr.1, d1]; omega, by rw [hfr.2.1, d2]⟩
+  refine ⟨by rw [hfr.1, d1]; unfold size at hl; omega, by rw [hfr.2.1, d2]⟩
 
 /-- `cc_hashset_foreach` visits exactly the elements -/
 theorem foreach_refines (c : HCfg) (s : HashSet) (m : Mem) (h : s.Inv c) :
@@ -211,15 +223,16 @@ def drive (c : HCfg) : List Bool → HashSet → HIter → Mem → List Key × H
     match r.2.1 with
     | none => ([], s, r.2.2.1, r.2.2.2)
     | some k =>
-      let q : HashSet × Mem :=
-        if b then ((s.iterRemove c r.2.2.1 r.2.2.2).2.2.1, (s.iterRemove c r.2.2.1 r.2.2.2).2.2.2) else (s, r.2.2.2)
-      let rest := drive c bs q.1 r.2.2.1 q.2
+      let q : HashSet × HIter × Mem :=
+        if b then ((s.iterRemove c r.2.2.1 r.2.2.2).2.2.1, (s.iterRemove c r.2.2.1 r.2.2.2).2.2.2.1,
+                   (s.iterRemove c r.2.2.1 r.2.2.2).2.2.2.2) else (s, r.2.2.1, r.2.2.2)
+      let rest := drive c bs q.1 q.2.1 q.2.2
       (k :: rest.1, rest.2)
 
 /-- the set program is the table program, yielding keys -/
 theorem drive_eq (c : HCfg) (bs : List Bool) (s : HashSet) (it : HIter) (m : Mem) :
     drive c bs s it m =
-      ((HashTable.drive c bs s.table it m).1.map (·.key), ⟨(HashTable.drive c bs s.table it m).2.1⟩,
+      ((HashTable.drive c bs s.table it m).1.map (·.key), { s with table := (HashTable.drive c bs s.table it m).2.1 },
        (HashTable.drive c bs s.table it m).2.2.1, (HashTable.drive c bs s.table it m).2.2.2) := by
   induction bs generalizing s it m with
   | nil => rfl
@@ -235,13 +248,16 @@ theorem drive_eq (c : HCfg) (bs : List Bool) (s : HashSet) (it : HIter) (m : Mem
 
 /-- **C07 for the hash set**: a fresh iterator driven long enough yields exactly the elements of the
 set, each once; with removals the set finally holds the elements whose removal was not requested -/
-theorem iter_program (c : HCfg) (s : HashSet) (m : Mem) (bs : List Bool) (h : s.Inv c) (hl : s.size + 3 ≤ m.live) :
+theorem iter_program (c : HCfg) (s : HashSet) (m : Mem) (bs : List Bool) (h : s.Inv c) (hl : s.size + 3 ≤ liveOf m s.triple) :
     (drive c bs s (s.iterInit m).1 m).1 = (s.abs.take bs.length) ∧
     (drive c bs s (s.iterInit m).1 m).2.1.Inv c ∧
     (drive c bs s (s.iterInit m).1 m).2.1.abs =
       s.abs.filter (fun k => !(HashTable.removedKeys s.table.buckets.flatten bs).contains k) ∧
     (s.size ≤ bs.length → (drive c bs s (s.iterInit m).1 m).1 = s.abs) := by
-  obtain ⟨p1, p2, p3, p4, p5⟩ := HashTable.iter_program c s.table m bs h.1 (by unfold size at hl; omega)
+  have hl' : s.table.size + 2 ≤ liveOf m s.table.triple := by rw [h.2.2]; unfold size at hl; omega
+  obtain ⟨p1, p2, p3, p4, p5⟩ := HashTable.iter_program c s.table m bs h.1 hl'
+  have hT := (HashTable.drive_spec c bs s.table (s.table.iterInit m).1 m _ h.1 (HashTable.iterInit_spec c s.table m h.1).1
+    h.1.2.2.2.2.1 hl').2.2.2.2.2.2.2
   rw [drive_eq]
   have habs : s.abs = s.table.buckets.flatten.map (·.key) := by
     unfold abs Map.keys HashTable.abs; rw [List.map_map]; rfl
@@ -251,12 +267,13 @@ theorem iter_program (c : HCfg) (s : HashSet) (m : Mem) (bs : List Bool) (h : s.
     unfold Map.keys
     rw [List.filter_map, List.map_map, List.filter_map]
     rfl
-  refine ⟨?_, ⟨p2, ?_⟩, ?_, ?_⟩
+  refine ⟨?_, ⟨p2, ?_, ?_⟩, ?_, ?_⟩
   · simp only [iterInit]; rw [p1, habs, List.map_take]
   · apply values_of_abs
     simp only [iterInit]
     rw [p3]; intro q hq
-    exact abs_of_values s.table h.2 q (List.mem_filter.mp hq).1
+    exact abs_of_values s.table h.2.1 q (List.mem_filter.mp hq).1
+  · simp only [iterInit]; rw [hT]; exact h.2.2
   · simp only [iterInit, abs]
     rw [p3, HashTable.abs_eq]
     rw [hfilter s.table.buckets.flatten (fun k => !(HashTable.removedKeys s.table.buckets.flatten bs).contains k)]
